@@ -41,6 +41,10 @@ structure St where
   num   : ObjId → Int
   /-- `obj._problem` is the problem owning this collection -/
   link  : ObjId → Bool
+  /-- value class of an object for Python `==`: `Surface.__eq__` / `Material.__eq__` compare number and
+      content (type, constants, components), so two distinct objects are `==` iff they have the same
+      content class and currently the same number; classes without `__eq__` have one class per object -/
+  content : ObjId → Nat := id
 
 inductive Out
   | ok
@@ -220,17 +224,30 @@ def pop (s : St) (pos : Int) : St × Out :=
     | none => (s, .err .indexError)
     | some o => ({ s with objs := s.objs.eraseIdx i, cache := evict s.cache o }, .obj (some o))
 
-/-- `NumberedObjectCollection.remove` (members compare by identity in the model; the harness only
-    uses pools of pairwise `!=` objects). -/
+/-- Python `a == b` on members (see `St.content`) -/
+def eqv (s : St) (a b : ObjId) : Bool := a = b || (s.content a = s.content b && s.num a = s.num b)
+
+/-- `list.index(x)`: the first member that is `==` x -/
+def firstEqv (s : St) (o : ObjId) : List ObjId → Option ObjId
+  | [] => none
+  | m :: t => if eqv s m o then some m else firstEqv s o t
+
+/-- `NumberedObjectCollection.remove` (repaired code): the member that `==` finds is popped, and it is
+    that member — not the argument — whose cache entries are dropped. -/
 def remove (s : St) (o : ObjId) : St × Out :=
-  if o ∈ s.objs then ({ s with cache := evict s.cache o, objs := s.objs.erase o }, .ok)
-  else (s, .err .valueError)
+  match firstEqv s o s.objs with
+  | some m => ({ s with cache := evict s.cache m, objs := s.objs.erase m }, .ok)
+  | none => (s, .err .valueError)
 
 /-- `NumberedObjectCollection.__delitem__` -/
 def delitem (s : St) (n : Int) : St × Out :=
   match get s n with
   | (s1, none) => (s1, .err .keyError)
-  | (s1, some o) => ({ s1 with cache := evict s1.cache o, objs := s1.objs.erase o }, .ok)
+  | (s1, some o) =>
+    -- `idx = self._objects.index(obj)`: the first member `==` obj (obj itself when numbers are unique)
+    match firstEqv s1 o s1.objs with
+    | some m => ({ s1 with cache := evict s1.cache o, objs := s1.objs.erase m }, .ok)
+    | none => (s1, .err .valueError)
 
 /-- `NumberedObjectCollection.clear` -/
 def clear (s : St) : St × Out := ({ s with objs := [], cache := [] }, .ok)
@@ -277,7 +294,7 @@ def step (s : St) : Op → St × Out
   | .setNumber o n => setNumber s o n
   | .get n => let r := get s n; (r.1, .obj r.2)
   | .getitem n => getitem s n
-  | .contains o => (s, .bool (decide (o ∈ s.objs)))
+  | .contains o => (s, .bool ((firstEqv s o s.objs).isSome))
   | .numbers => ({ s with cache := refresh s.num s.objs s.cache }, .ints (s.objs.map s.num))
   | .keys => (s, .ints (s.objs.map s.num))
   | .items => (s, .objsOut s.objs)
@@ -296,9 +313,9 @@ def initLoop (num : ObjId → Int) : List ObjId → Cache → Option Cache
     | some _ => none
     | none => initLoop num t (dset c (num o) o)
 
-def init (owned : Bool) (num : ObjId → Int) (os : List ObjId) : Option St :=
+def init (owned : Bool) (num : ObjId → Int) (os : List ObjId) (content : ObjId → Nat := id) : Option St :=
   match initLoop num os [] with
   | none => none
-  | some c => some { owned, objs := os, cache := c, num, link := fun _ => false }
+  | some c => some { owned, objs := os, cache := c, num, link := fun _ => false, content }
 
 end MontePyVerif.Collection
